@@ -44,6 +44,10 @@ func provGuestBin() []byte {
 		{Module: "env", Name: "tblbase", Kind: wenc.ExtGlobal, Global: wenc.GlobalType{Type: wenc.I32}},
 		{Module: "env", Name: "v64", Kind: wenc.ExtGlobal, Global: wenc.GlobalType{Type: wenc.I64}},
 	}
+	// host functions that act on "the calling module": one defined through reflection (WithFunc with an api.Module
+	// parameter), one through the stack-based API; both write v at addr of the memory of the module they are handed
+	pokeReflect := m.ImportFunc("henv", "poke_reflect", []wenc.ValType{wenc.I32, wenc.I32}, nil)
+	pokeStack := m.ImportFunc("henv", "poke_stack", []wenc.ValType{wenc.I32, wenc.I32}, nil)
 	m.Mems = []wenc.Limits{{Min: 1, Max: 1, HasMax: true}}
 	m.Tables = []wenc.TableType{{Elem: wenc.FuncRef, Lim: wenc.Limits{Min: 16, Max: 16, HasMax: true}}}
 	// own globals: g3 (i64, mutable) = global.get v64 ; g4 (i32, immutable) = global.get base
@@ -55,6 +59,9 @@ func provGuestBin() []byte {
 	f2 := m.AddFunc(nil, []wenc.ValType{wenc.I32}, nil, (&wenc.Code{}).I32Const(22).End().B)
 	m.Datas = []wenc.Data{{Mode: 0, Offset: append([]byte{0x23, 0}, 0x0b), Bytes: []byte(provMarker)}}
 	m.Elems = []wenc.Elem{{Mode: 0, Offset: append([]byte{0x23, 1}, 0x0b), FuncIdx: []uint32{f1, f2}}}
+	hp := &wenc.Code{}
+	hp.LocalGet(0).If(0x40).LocalGet(1).LocalGet(2).Call(pokeStack).Else().LocalGet(1).LocalGet(2).Call(pokeReflect).End().End()
+	m.ExportFunc("hp", m.AddFunc([]wenc.ValType{wenc.I32, wenc.I32, wenc.I32}, nil, nil, hp.B))
 	peek := &wenc.Code{}
 	peek.LocalGet(0).Mem(0x28, 2, 0).End() // i32.load
 	m.ExportFunc("peek", m.AddFunc([]wenc.ValType{wenc.I32}, []wenc.ValType{wenc.I32}, nil, peek.B))
@@ -72,7 +79,7 @@ func provGuestBin() []byte {
 }
 
 // observe returns what an instance can see of its own link-time state.
-func provObserve(ctx context.Context, mod api.Module, bases []uint32) []string {
+func provObserve(ctx context.Context, mod api.Module, bases []uint32, tag uint32) []string {
 	var out []string
 	call := func(name string, args ...uint64) string {
 		r, err := mod.ExportedFunction(name).Call(ctx, args...)
@@ -82,6 +89,10 @@ func provObserve(ctx context.Context, mod api.Module, bases []uint32) []string {
 		return fmt.Sprintf("%#x", r[0])
 	}
 	out = append(out, "gbase="+call("gbase"), "g32="+call("g32"), "g64="+call("g64"))
+	// host functions handed "the calling module" must act on THIS instance
+	mod.ExportedFunction("hp").Call(ctx, 0, 3000, uint64(0xa0000000|tag))
+	mod.ExportedFunction("hp").Call(ctx, 1, 3004, uint64(0xb0000000|tag))
+	out = append(out, "poke_reflect->"+call("peek", 3000), "poke_stack->"+call("peek", 3004))
 	for _, b := range bases { // where any of the group's providers would place the data segment
 		out = append(out, fmt.Sprintf("peek(%d)=%s", b, call("peek", uint64(b))))
 	}
@@ -131,7 +142,19 @@ func provChild(in json.RawMessage) any {
 		if compiler {
 			rc = wazero.NewRuntimeConfigCompiler()
 		}
-		return wazero.NewRuntimeWithConfig(ctx, rc)
+		rt := wazero.NewRuntimeWithConfig(ctx, rc)
+		_, err := rt.NewHostModuleBuilder("henv").
+			NewFunctionBuilder().WithFunc(func(_ context.Context, mod api.Module, addr, v uint32) {
+			mod.Memory().WriteUint32Le(addr, v)
+		}).Export("poke_reflect").
+			NewFunctionBuilder().WithGoModuleFunction(api.GoModuleFunc(func(_ context.Context, mod api.Module, stack []uint64) {
+			mod.Memory().WriteUint32Le(uint32(stack[0]), uint32(stack[1]))
+		}), []api.ValueType{api.ValueTypeI32, api.ValueTypeI32}, nil).Export("poke_stack").
+			Instantiate(ctx)
+		if err != nil {
+			panic(err)
+		}
+		return rt
 	}
 	guest := provGuestBin()
 	rt := mkRt()
@@ -155,18 +178,18 @@ func provChild(in json.RawMessage) any {
 			return res
 		}
 		group = append(group, mod)
-		first = append(first, provObserve(ctx, mod, bases))
+		first = append(first, provObserve(ctx, mod, bases, uint32(i+1)))
 		env.Close(ctx) // frees the name for the next provider; the guest instance keeps its imported globals
 	}
 	for i, v := range vals {
-		again := provObserve(ctx, group[i], bases)
+		again := provObserve(ctx, group[i], bases, uint32(i+1))
 		lrt := mkRt()
 		lcm, _ := lrt.CompileModule(ctx, guest)
 		_, err := lrt.InstantiateWithConfig(ctx, providerBin(v), wazero.NewModuleConfig().WithName("env"))
 		var lone []string
 		if err == nil {
 			if lm, err := lrt.InstantiateModule(ctx, lcm, wazero.NewModuleConfig().WithName("g")); err == nil {
-				lone = provObserve(ctx, lm, bases)
+				lone = provObserve(ctx, lm, bases, uint32(i+1))
 			}
 		}
 		lrt.Close(ctx)
